@@ -73,7 +73,8 @@ def dom_string(rng, cls: str | None = None) -> str:
         elif cls == "multi":
             s = " ".join(word(rng, 1, 5) for _ in range(rng.randrange(2, 4)))
             if rng.random() < 0.3:
-                s = s.replace(" ", rng.choice(["  ", "\t", " \t "]), 1)
+                # runs of blanks, tabs, and white space beyond ASCII (NBSP, EM SPACE, NNBSP, IDEOGRAPHIC SPACE: \s for re)
+                s = s.replace(" ", rng.choice(["  ", "\t", " \t ", "   ", "\u00a0", "\u2003", "\u202f", "\u3000", " \u00a0 "]), 1)
             if rng.random() < 0.2:
                 s = rng.choice([" ", "\t"]) + s
             if rng.random() < 0.2:
